@@ -55,6 +55,8 @@ Bytes build_answer(uint16_t id, const std::string &qname, uint16_t qtype, const 
 // strip topdomain (case-insensitive, label boundary); returns false if not under it
 bool strip_domain(const std::string &qname, const std::string &topdomain, std::string &data);
 std::string undot(const std::string &s);
+// is qname tunnel traffic for a server started with srv_domain (plain or "*." wildcard)?  data_len = characters before the matched domain
+bool tunnel_domain_match(const std::string &qname, const std::string &srv_domain, size_t &data_len);
 int b32val(char c);    // -1 if not in the Base32 alphabet (either case)
 char b32chr(int v);
 
